@@ -154,10 +154,11 @@ class NetworkXGraphStorageDisjoint:
         def extract_graph(self, graph_id: str) -> nx.Graph or None:
             self.lock.acquire()
             try:
-                graph = self.graphs[graph_id]
+                # copy while holding the lock: a copy taken after the release iterates over a graph
+                # that add_blank_node_to_graph of another thread may be inserting into
+                return self.graphs[graph_id].copy()
             finally:
                 self.lock.release()
-            return graph.copy()
 
         def get_graph(self, graph_id) -> nx.Graph:
             # return the store for this graph
